@@ -114,7 +114,7 @@ var specs = map[string]*Spec{
 		Quick:    TierParams{Runs: 40000, RaceRuns: 3000, Budget: 6 * time.Minute},
 		Thorough: TierParams{Budget: 24 * time.Minute, Rounds: 6},
 		Level:    "exploration",
-		Rule: "per round a seeded batch of 200 closed, data-race-free-by-construction Go functions (go statements incl. nested and loop spawns, sync.Mutex, sync.Cond, sync.WaitGroup, machine.Sleep, machine.WaitTimeout polling loops; shared state in heap cells, captured vars, struct fields behind pointers with methods; classes: deterministic-by-construction and schedule-dependent) and a second package of 50 probe programs in ten shapes the shipped goose rejects or should reject (go f(args), RWMutex, return in a nested loop, assignment to a := local after capture, defer in a branch, go func literal with parameters, shared slice and map, break inside a switch clause, range over an integer, the address of a := local taken in several goroutines; translated with -ignore-errors and held to reject-or-faithful) is generated, translated by the goose built from the working tree, and compiled (sync->simsync, go->simrt.Go, yield before every statement) into the driver. " +
+		Rule: "per round a seeded batch of 200 closed, data-race-free-by-construction Go functions (go statements incl. nested and loop spawns, sync.Mutex, sync.Cond, sync.WaitGroup, machine.Sleep, machine.WaitTimeout polling loops; shared state in heap cells, captured vars, struct fields behind pointers with methods; classes: deterministic-by-construction and schedule-dependent) and a second package of 90 probe programs in eighteen shapes that the shipped goose rejects, or accepts but that no shipped example exercises (go f(args), RWMutex, return in a nested loop, assignment to a := local after capture, defer in a branch, go func literal with parameters, shared slice and map, break inside a switch clause, range over an integer, the address of a := local taken in several goroutines, a method value taken before its receiver is re-pointed, a wait loop on the length of a shared slice, a loop cursor advanced by a joined worker, a shadowing short declaration, a var-declared WaitGroup pointer with initialiser, adjacent critical sections, calls as operands of a method call, a blank target in a multiple assignment; translated with -ignore-errors and held to reject-or-faithful) is generated, translated by the goose built from the working tree, and compiled (sync->simsync, go->simrt.Go, yield before every statement) into the driver. " +
 			"Each run: one program under one seeded Go schedule (uniform / sticky / PCT) gives Go's result and its order of synchronisation events; the GooseLang text of the same program is executed on the glang interpreter along that order (schedule transfer) and must give Go's result, otherwise 300 random interleavings are searched for it; deterministic-class programs are additionally run on 3 random complete interleavings each of which must return the same value without cell race, stuck thread, deadlock or divergence. An auxiliary non-simulation assertion (aux.api-correspondence) counts sync/machine calls in the Go source against the primitives in the emitted definition, because Signal and Broadcast are both no-ops in GooseLang and a swap is invisible to execution. The -race build re-runs the Go side only (validates that the generator's programs are race-free; a Go race is INFRA, not a violation). " +
 			"Non-trivial: the Go run had more than two context switches; distinct = distinct fingerprints of (Go event log, GooseLang interleavings).",
 		Components: map[string]string{"goose translator (cmd/goose, goose.go, types.go, internal/coq)": "real: built from /repo's working tree and run on the generated package",
@@ -148,7 +148,7 @@ var specs = map[string]*Spec{
 		Thorough: TierParams{Budget: 10 * time.Minute},
 		Level:    "exploration",
 		Rule: "fault-free configuration of the disk simulator: one client, a plan of 1-40 Read/ReadTo/Write/Size/Barrier calls on a disk of 0,1,2,3,8 or 100 blocks (one plan in sixteen: 64,128,1024,4096,4097 or 8192 blocks, where chunked storage has an empty or exactly full last chunk) with boundary addresses (size-1,size,size+1,2^32,2^52,2^64-1), wrong-sized write buffers and aliasing probes (scribble on the buffer after Write and on the slice returned by Read, one reusable buffer, dirty ReadTo buffers, a slice returned by Read held across later operations, the spare capacity of an earlier Read result appended into; addresses 2^52 and 2^52+1, where a*4096 wraps); block contents are the write's id laid out uniformly, as the zero block, as a repeat of earlier content, or with structure (only the last word, only the first word, one half set); a quarter of the plans close the disk and make another one or two (in memory: a new disk that must read zero; on a file: the same image, sometimes with another size); an API call that never returns is a violation; " +
-			"the same plan is executed on 8 systems (disk/async_disk x Mem/File-on-simulated-kernel x direct/global wrappers) and every tenth plan also on the real Linux kernel, each compared operation by operation with the register-array model and a neighbour scan after every write. " +
+			"the same plan is executed on 8 systems (disk/async_disk x Mem/File-on-simulated-kernel x direct/global wrappers; in the global systems a quarter of the calls go to the object behind the wrappers, disk.Get(), instead) and every tenth plan also on the real Linux kernel, each compared operation by operation with the register-array model and a neighbour scan after every write. " +
 			"Non-trivial: some read returned a block produced by an earlier write of the plan; distinct = distinct plans (hash of the plan).",
 		Components:   machComponents,
 		Assumptions:  []string{"single client, no faults, no crash: this is the fault-free configuration; faults and reopen belong to C11, concurrency to C10", "ReadTo buffers of other sizes than 4096 are not generated (the property constrains only wrong-sized write buffers)"},
@@ -176,7 +176,7 @@ var specs = map[string]*Spec{
 		Quick:    TierParams{Runs: 6000, Budget: 5 * time.Minute},
 		Thorough: TierParams{Budget: 12 * time.Minute},
 		Level:    "exploration",
-		Rule: "fault-free configuration of the filesystem simulator: one client, 1-3 directories (named d0,d1,d2, or so that one name is a prefix of another: d,d1,d12 / db,db.old,db2), file names a,b,a.tmp,c or, in a fifth of the plans, unusual legal ones (log..old, ..., a b, -x, .hidden, x~), a plan of 1-40 calls (Create/Append/Close/Open/ReadAt/Delete/Link/AtomicCreate/List, plus one bulk creation of 110-190 names for List's refill loop) generated against the reference model so that every call respects the documented preconditions; names from {a,b,a.tmp,c}, data sizes 0..70000, offsets/lengths around the file size, aliasing probes (scribble on data after Append/AtomicCreate and on the slice returned by ReadAt). " +
+		Rule: "fault-free configuration of the filesystem simulator: one client, 1-3 directories (named d0,d1,d2, or so that one name is a prefix of another: d,d1,d12 / db,db.old,db2), file names a,b,a.tmp,c or, in a fifth of the plans, unusual legal ones (log..old, ..., a b, -x, .hidden, x~), a plan of 1-40 calls (in the global-wrapper systems a fifth of them go to the Filesys object behind the wrappers instead) (Create/Append/Close/Open/ReadAt/Delete/Link/AtomicCreate/List, plus one bulk creation of 110-190 names for List's refill loop) generated against the reference model so that every call respects the documented preconditions; names from {a,b,a.tmp,c}, data sizes 0..70000, offsets/lengths around the file size, aliasing probes (scribble on data after Append/AtomicCreate and on the slice returned by ReadAt). " +
 			"The same plan runs on MemFs and on DirFs over the simulated kernel (ReadDirent limited to 1-3 entries per call in half of the runs, high descriptor numbers in a quarter), each directly and through the package-level wrappers, and every tenth plan on DirFs over the real Linux kernel; every result is compared with the model (descriptors up to renaming and required to be fresh, List as a set) and all files are re-read at the end. " +
 			"Non-trivial: some ReadAt returned data; distinct = distinct plans.",
 		Components:   machComponents,
@@ -192,7 +192,7 @@ var specs = map[string]*Spec{
 		Level:    "fault_enumeration",
 		Rule: "every 8th plan is batch (4), the others go by plan index mod 4. (0,1) crash-point enumeration on DirFs over the simulated kernel: prior state = destination absent or old content (0..5000 bytes), optionally a leftover name.tmp of an interrupted earlier call (shorter, equal or longer than the new data; planted at the root and beside the destination), data of 0,1,100,4096 or 70000 bytes, write(2) limited to a few bytes per call in half of the plans; EVERY crash point (before each system call of the call) is executed in strict or ordered journal mode, crash survivors chosen per the durability model, remounted and read: the destination must be the previous state or exactly the data; then a fresh fault-free AtomicCreate over whatever was left behind must yield exactly its data. " +
 			"(2) single-fault enumeration: EVERY system call of the call x {errno (EACCES/ENOSPC/EIO), short write of 1 or half the bytes}: the call panics or returns; the destination is old-or-new at that moment and exactly new if it returned; then the fresh call as above; every fsync of the call is additionally failed with EIO and followed by a power failure 1..8 system calls later (whatever the call did after the failure -- gave up, retried, renamed -- the name holds the old or the new contents), and the crash batch also crashes right after the call has returned. In (0,1,2), after EVERY system call of the call (and of the fresh call that follows an interrupted one) the destination as any other process would see it must be the previous state or exactly the data (ac.instant.partial). " +
-			"(3) concurrency: 1-3 creator tasks (independent names / same name in different directories / same name in one directory / independent destinations whose directory and name collide when joined by a separator, e.g. d0 + a-x and d0-a + x / the names x and x.tmp) plus a reader task under seeded schedules, on DirFs (2/3) or MemFs (1/3): every read sees the old state or one creator's complete data, no creator panics, each destination ends as the complete data of one of its creators. (4) sequential histories centred on AtomicCreate (AtomicCreate / Delete / Create+Append / Link / Open+ReadAt over 1-3 directories, on MemFs and DirFs) checked operation by operation and re-read at the end: a completed call stays exact under later unrelated operations. " +
+			"In a third of the plans with at least 4096 bytes the data contains an aligned all-zero block. (3) concurrency: 1-3 creator tasks (independent names / same name in different directories / same name in one directory / independent destinations whose directory and name collide when joined by a separator, e.g. d0 + a-x and d0-a + x / the names x and x.tmp) plus a reader task under seeded schedules, on DirFs (2/3) or MemFs (1/3): every read sees the old state or one creator's complete data, no creator panics, each destination ends as the complete data of one of its creators. (4) sequential histories centred on AtomicCreate (AtomicCreate / Delete / Create+Append / Link / Open+ReadAt over 1-3 directories, on MemFs and DirFs) checked operation by operation and re-read at the end: a completed call stays exact under later unrelated operations. " +
 			"Non-trivial: a fault/crash fired inside the call or a leftover temp file existed (0-2), operations overlapped (3); distinct = distinct concrete plans resp. event-log fingerprints.",
 		Components:   machComponents,
 		Assumptions:  []string{"crash model: durable = fsynced data + journal prefix (strict: fsync(file) forces only that file; ordered: also all earlier metadata); unsynced writes persist in any subset, possibly torn; an fsync that fails with EIO drops the data that was dirty from write-back for good (a retried fsync that returns 0 has flushed nothing)", "visibility after a crash is what a remounted DirFs reads"},
@@ -231,7 +231,7 @@ var specs = map[string]*Spec{
 		Quick:    TierParams{Runs: 12000, RaceRuns: 2000, Budget: 5 * time.Minute},
 		Thorough: TierParams{Budget: 15 * time.Minute},
 		Level:    "exploration",
-		Rule: "plans: 1-2 directories, a sequential setup (a stable file, sometimes a victim file), then 2-4 client tasks with 9-12 operations in total, biased toward collisions: Create/Create and Create/Link of one name, Append through a creator's descriptor while others Open/ReadAt the file, Delete of the victim by one client, AtomicCreate (one client per name; concurrent AtomicCreates belong to C13), List during changes, appends of up to 9000 bytes, a directory created by one client while the others run; in a fifth of the plans a name that one client creates while another deletes it and creates it again; the slice List returns is overwritten by the caller; appends of up to 70000 bytes; in a third of the DirFs plans stalls move the simulated clock, and with it the time stamps the kernel puts on files and directories; MemFs in 2/3 of the plans, DirFs on the simulated kernel in 1/3 (getdents limited to 1-2 entries per call in half of those; DirFs.List is judged by the sandwich oracle). " +
+		Rule: "plans: 1-2 directories, a sequential setup (a stable file, sometimes a victim file), then 2-4 client tasks with 9-12 operations in total, biased toward collisions: Create/Create and Create/Link of one name, Append through a creator's descriptor while others Open/ReadAt the file, Delete of the victim by one client, AtomicCreate (one client per name; concurrent AtomicCreates belong to C13), List during changes, appends of up to 9000 bytes, a directory created by one client while the others run; in a fifth of the plans a name that one client creates while another deletes it and creates it again; the slice List returns is overwritten by the caller; appends of up to 70000 bytes; in a fifth of the plans a log file whose one descriptor, opened by the setup, all clients append through; in a third of the DirFs plans stalls move the simulated clock, and with it the time stamps the kernel puts on files and directories; MemFs in 2/3 of the plans, DirFs on the simulated kernel in 1/3 (getdents limited to 1-2 entries per call in half of those; DirFs.List is judged by the sandwich oracle). " +
 			"Each plan runs under one seeded schedule with yields before every statement, at every lock operation and system call; after the clients join every touched name is read back. The whole history (invoke/return stamped with event sequence numbers) is checked with porcupine against the filesystem model (descriptors by handle), plus: descriptors open at the same time are distinct, no deadlock, and in the -race build no race report. " +
 			"Non-trivial: two operations of different clients overlapped in time; distinct = distinct event-log fingerprints among those.",
 		Components:   machComponents,
